@@ -69,6 +69,12 @@ def lib():
     L.gr_slot_advance_X.argtypes = [vp, vp, vp]
     L.gr_slot_attr.restype = ctypes.c_int
     L.gr_slot_attr.argtypes = [vp, vp, ctypes.c_int, ctypes.c_uint8]
+    L.gr_seg_cinfo.restype = vp
+    L.gr_seg_cinfo.argtypes = [vp, ctypes.c_uint]
+    L.gr_seg_n_cinfo.restype = ctypes.c_uint
+    L.gr_seg_n_cinfo.argtypes = [vp]
+    L.gr_cinfo_break_weight.restype = ctypes.c_int
+    L.gr_cinfo_break_weight.argtypes = [vp]
     L.gr_slot_attached_to.restype = vp
     L.gr_slot_attached_to.argtypes = [vp]
     L.gr_slot_index.restype = ctypes.c_uint
@@ -125,6 +131,8 @@ class Face:
             if not seg:
                 return None
             out = []
+            # break weight of every character of the text (line breaking is part of what a font does to a text)
+            self.last_break_weights = [L.gr_cinfo_break_weight(L.gr_seg_cinfo(seg, k)) for k in range(L.gr_seg_n_cinfo(seg))]
             s = L.gr_seg_first_slot(seg)
             while s:
                 d = {"gid": L.gr_slot_gid(s), "before": L.gr_slot_before(s), "after": L.gr_slot_after(s),
